@@ -40,7 +40,8 @@ def main():
         if not os.path.exists(patch):
             continue
         meta = json.load(open(os.path.join(d, 'meta.json')))
-        target = meta['property']
+        benign = meta.get('kind') == 'benign'   # behaviour-preserving change: every check must stay silent
+        target = None if benign else meta['property']
         r = sh(['git', '-C', REPO, 'apply', patch])
         if r.returncode != 0:
             print('%s: patch does not apply: %s' % (sid, r.stdout.strip()[:200])); sh(['git', '-C', REPO, 'checkout', '--', '.']); continue
@@ -51,7 +52,7 @@ def main():
             res['repo_tests'] = ' '.join(b.stdout.split())
             print('%s: repo tests: %s' % (sid, res['repo_tests']), flush=True)
         try:
-            for p in ([target] + [q for q in props if q != target] if allc else [target]):
+            for p in (props if benign else [target] + [q for q in props if q != target] if allc else [target]):
                 t0 = time.time()
                 c = sh([os.path.join(V, 'check'), p, '--tier', tier], cwd=V, env=env)
                 viol = [l for l in c.stdout.splitlines() if l.startswith('VIOLATION')]
@@ -69,6 +70,8 @@ def main():
             if sh(['git', '-C', REPO, 'apply', '-R', patch]).returncode != 0:
                 sh(['git', '-C', REPO, 'checkout', '--', '.'])
         res['caught_by'] = sorted(p for p, v in res['checks'].items() if v['exit'] == 1 and v['violations'])
+        if benign:
+            res['false_alarms'] = res.pop('caught_by') + sorted(p for p, v in res['checks'].items() if v['exit'] not in (0, 1))
         json.dump(res, open(os.path.join(d, 'result.json'), 'w'), indent=1)
     sh(['rm', '-rf', REPO])
     return 0
